@@ -487,12 +487,16 @@ def spec_C07(lines, ghost=None):
         i += 1
     return bad
 
+def spec_mismatch(lines, ghost=None):
+    """Two accessors of one reader disagree (the harness calls all of them in every body and logs `accessor-mismatch`)."""
+    return ["line %d: %s" % (i, l) for i, l in enumerate(lines) if l.startswith("accessor-mismatch")]
+
 def spec_none(lines, ghost=None): return []
 
 SPECS = {
     "C01": [spec_C01], "C02": [spec_C02], "C03": [spec_expect], "C04": [spec_C04, spec_expect], "C05": [spec_C05],
     "C06": [], "C07": [spec_C07], "C08": [spec_C08], "C09": [spec_C02], "C10": [], "C11": [spec_C11, spec_C02],
-    "C12": [spec_C12, spec_expect], "C13": [spec_C13], "C14": [spec_C14], "C15": [spec_C15], "C16": [spec_expect], "C17": [spec_C17],
+    "C12": [spec_C12, spec_expect], "C13": [spec_C13], "C14": [spec_C14], "C15": [spec_C15], "C16": [spec_expect, spec_mismatch], "C17": [spec_C17],
     "C18": [spec_C05, spec_C14],
 }
 
